@@ -9,6 +9,45 @@ import FinamModel.GridLemmas
 namespace Finam.Props.C14
 open Finam
 
+/-! ### Index-to-coordinate consistency -/
+
+/-- **C14, first sentence.** For every structured grid (any number of axes of any positive lengths —
+    length-1 axes included —, either order, reversed or natural axes order, any combination of
+    increasing/decreasing axes, cell or point data) and every multi-index `i` inside the grid's
+    data shape: the entry of the flattened data-point list at the position obtained by flattening
+    `i` in the grid's order is the coordinate read off the per-axis data axes at `i`. -/
+theorem point_at_index (g : SGrid) (hne : ∀ ax ∈ g.axes, ax ≠ []) (i : List Nat)
+    (hi : InB g.dataShape i) :
+    g.dataPoints[ravel g.order g.dataShape i]? = some (g.coordAt i) := by
+  rw [SGrid.dataPoints_eq]
+  rw [SGrid.dataShape_eq g hne] at hi ⊢
+  unfold SGrid.coordAt
+  rw [SGrid.dataAxes_eq]
+  cases hr : g.rev with
+  | false =>
+    simp only [hr, Bool.false_eq_true, if_false] at hi ⊢
+    simpa [pointOrder] using SGrid.genPoints_at (g.locAxes) g.order g.inc i hi
+  | true =>
+    simp only [hr, if_true] at hi ⊢
+    have hi' : InB ((g.locAxes).map List.length) i.reverse := by
+      have := InB_reverse hi; simpa using this
+    have hlen : i.length = (SGrid.dirAxes (g.locAxes) g.inc).length := by
+      rw [hi.length_eq, SGrid.dirAxes_length]; simp
+    have h1 := SGrid.genPoints_at (g.locAxes) g.order.swap g.inc i.reverse hi'
+    have h2 : ravel g.order ((g.locAxes).map List.length).reverse i =
+        ravel g.order.swap ((g.locAxes).map List.length) i.reverse := by
+      have := ravel_reverse g.order ((g.locAxes).map List.length) i.reverse
+      simp only [List.reverse_reverse] at this
+      rw [this]; cases g.order <;> rfl
+    rw [h2]
+    simp only [pointOrder, if_true]
+    rw [h1, SGrid.pick_reverse _ _ hlen]
+
+/-- non-vacuity: an ESRI-like layout (axes reversed, y decreasing, C order), cell data -/
+def exEsri : SGrid := ⟨[[0, 1, 2, 3], [0, 2, 4]], [true, false], true, .C, .cells, none⟩
+example : InB exEsri.dataShape [1, 2] ∧ exEsri.coordAt [1, 2] = [5/2, 1] ∧
+    exEsri.dataPoints[ravel exEsri.order exEsri.dataShape [1, 2]]? = some [5/2, 1] := by decide +kernel
+
 /-! ### Shape, size and points always reflect the current data location -/
 
 /-- specification of the operation history: objects are just their current location, nothing is
